@@ -268,6 +268,26 @@ def t_approx(T, tier, only_k1=None):
             it.ctx.oblige('_approx_check/ensures.returns_bool', z3.BoolVal(rb is not None))
             if rb is not None and not same_cell_kind(k1, k2):
                 it.ctx.oblige('_approx_check/ensures.False_for_a_cell_of_another_kind', z3.Not(rb))
+            if rb is not None and same_cell_kind(k1, k2):
+                # the discriminating direction, from the statement: cells that differ materially are unequal.  "Materially equal" per kind:
+                # numbers within the tolerance; times up to the sub-second part; date-times: same zone object, same date, same time of day;
+                # quantities: same unit, values within tolerance; coordinates: both angles within tolerance; everything else: equal content
+                near = lambda a, b: z3.Or(DT.eqv(a, b), close(a, b))
+                P = proj
+                if k1 in ('int', 'float'):
+                    same = near(v1, v2)
+                elif k1 == 'time':
+                    same = DT.eqv(P['trunc_us'](v1), P['trunc_us'](v2))
+                elif k1 == 'datetime':
+                    same = z3.And(DT.eqv(P['tzinfo'](v1), P['tzinfo'](v2)), DT.eqv(P['date'](v1), P['date'](v2)),
+                                  DT.eqv(P['trunc_us'](P['time'](v1)), P['trunc_us'](P['time'](v2))))
+                elif k1 == 'qty':
+                    same = z3.And(DT.eqv(P['unit'](v1), P['unit'](v2)), near(P['value'](v1), P['value'](v2)))
+                elif k1 == 'coord':
+                    same = z3.And(near(P['latitude'](v1), P['latitude'](v2)), near(P['longitude'](v1), P['longitude'](v2)))
+                else:
+                    same = DT.eqv(v1, v2)
+                it.ctx.oblige('_approx_check/ensures.True_only_for_materially_equal_cells(%s)' % k1, z3.Implies(rb, same))
         T.explore(w, run, '%s~%s' % (k1, k2))       # no allow_raise: any exception is a failed obligation
     # equal content => True (faithful copy), for each kind
     for k1 in ([only_k1] if only_k1 else CELL_KINDS):
